@@ -7,7 +7,7 @@ from ..codec import enc
 from ..corr import tables
 from ..shrink import shrink_strings
 
-LEAN_TARGETS = ['XdocModel.Proofs.C06']
+LEAN_TARGETS = ['XdocModel.Proofs.C06', 'XdocModel.Pins.Ellipsis']
 MANIFEST = {
     'text': ("Full: `ellipsis_iff_spec` proves for ALL strings that the model of checker._ellipsis_match accepts exactly the "
              "decompositions the property sentence describes (pieces in order, first/last anchored, no overlap, anything for "
